@@ -967,6 +967,11 @@ class RequestHandler(BaseProtocol, Generic[_Request]):
                 "with the error message"
             )
 
+        # A response whose prepare() failed may have set this writer up for
+        # itself (chunking, compression, a length): the error response is
+        # framed on its own.
+        request._payload_writer = StreamWriter(self, self._loop)
+
         ct = "text/plain"
         if status == HTTPStatus.INTERNAL_SERVER_ERROR:
             title = f"{HTTPStatus.INTERNAL_SERVER_ERROR.value} {HTTPStatus.INTERNAL_SERVER_ERROR.phrase}"
